@@ -102,6 +102,10 @@ pub const TEMPLATES: &[&str] = &[
     "HISTSIZE=⟦1⟧; COLUMNS=⟦80⟧; LINES=⟦24⟧; echo ok",
     "PS4=⟦+⟧; set -x; echo a; set +x",
     "PS4='⟦+⟧$(echo x) '; set -x; echo hi; set +x",
+    "trap '⟦echo e⟧' ERR; trap '⟦false⟧; echo d' DEBUG; echo hi; trap - DEBUG",
+    "trap 'echo d' DEBUG; trap '⟦false⟧; echo e' ERR; false; trap - DEBUG ERR",
+    "trap '⟦false⟧; echo t' ERR EXIT; f() { ⟦false⟧; }; f",
+    "trap 'trap \"echo in\" ⟦EXIT⟧; ⟦false⟧' ⟦ERR⟧; false",
     // quoting and substitutions
     "echo \"⟦a⟧\" '⟦a⟧' $'⟦\\x41⟧' $\"⟦a⟧\"",
     "echo $'\\u⟦00e9⟧ \\U⟦0001F600⟧ \\⟦101⟧ \\c⟦a⟧ \\x⟦41⟧'",
